@@ -249,7 +249,8 @@ class SMCSampler(MCMCSampler):
             self.history = SMCHistory()
         self.fit_preconditioning_transform(samples.x)
 
-        if store_sample_history:
+        # On resume the restored history already ends with this population
+        if store_sample_history and not resumed:
             self.history.sample_history.append(samples)
 
         if self.xp.isnan(samples.log_q).any():
